@@ -1197,3 +1197,14 @@ func (t *Table) InlineTailCalls(resIdxOf func(*ssa.Function) int, keep func(r Ro
 		}
 	}
 }
+
+// AtomValue returns the SSA value of a registered branch atom (the comparison or boolean).
+func AtomValue(atom string) ssa.Value {
+	if info, ok := atomReg[atom]; ok {
+		if info.V != nil {
+			return info.V
+		}
+		return info.NilOf
+	}
+	return nil
+}
